@@ -343,6 +343,29 @@ def r16_7(ctx, J):
     ctx.end()
 
 
+def r16_8(ctx, J, only_keys=None):
+    """'equals the original file value-for-value': every saved object is rebuilt from its *own* JSON object.  All keys a constructor
+    call is fed with must be read through one variable -- a key read through another one (a loop variable left over from an inner
+    loop, the enclosing object's record) hands the object somebody else's value under the right name."""
+    ctx.begin("R16.8", "every constructor call of the JSON readers reads all of its keys from one and the same JSON object", floor=6)
+    for cn, bases in sorted(J.read_bases.items()):
+        site = J.read_site.get(cn)
+        if not bases or site is None:
+            continue
+        main = max(bases, key=lambda b: len(bases[b]))
+        ctx.instance(f"{cn}:one-source", cells=sum(len(v) for v in bases.values()), sample={"read_through": {b: len(v) for b, v in bases.items()}})
+        for b, uses in sorted(bases.items()):
+            if b == main:
+                continue
+            for key, node in uses:
+                if only_keys is not None and key not in only_keys:
+                    continue
+                ctx.violation(f"{cn}:foreign-source:{key}", site[0].loc(node),
+                              f"the reader builds a {cn} from `{main}[...]` ({len(bases[main])} keys) but takes '{key}' from `{b}`: the object is restored with the value saved "
+                              f"for another object (or fails when that variable was never bound)")
+    ctx.end()
+
+
 def r16_6(ctx):
     """'writing never fails for a constructible model' / 'equals the original file value-for-value': the writer serialises with
     options under which every str, float and nesting the model can hold is writable in the file's encoding (the json defaults:
@@ -398,6 +421,7 @@ def run(ctx):
     r16_4(ctx, J)
     r16_5(ctx, J)
     r16_7(ctx, J)
+    r16_8(ctx, J)
     # "at any stage (... finished backward)": a backward run must hand back a model without helper tasks and with restored links,
     # otherwise the file holds IDs of tasks that are not saved (C17's restoration and helper rules)
     from .C17 import r17_1, r17_3
